@@ -58,3 +58,39 @@ def gen_threads(tier, seed, work):
             f.write(json.dumps(it) + '\n')
     return {'schedules': path}, {'module': 'MC_Threads', 'cfg': cfg, 'states': res.get('states', 0),
                                  'distinct': res.get('distinct', 0), 'schedules': len(items), 'wall_s': round(res['wall'], 2)}
+
+
+def gen_ladder(tier, seed, work):
+    """every toggle/encode history of length 3 over the switch-sensitive integers (MC_Ladder, generator config)"""
+    res = tlc.run_tlc(os.path.join(tlc.SPEC, 'mc', 'MC_Ladder.tla'), os.path.join(tlc.SPEC, 'mc', 'MC_Ladder_gen.cfg'),
+                      workers=1, xmx='6g', xss='64m')
+    if 'Model checking completed. No error has been found.' not in res['out']:
+        raise tlc.MachineryError('S2C generator MC_Ladder_gen failed\n%s' % res['out'][-3000:])
+    items = parse_s2c(res['out'])
+    seen, uniq = set(), []
+    for it in items:
+        k = json.dumps(it, sort_keys=True)
+        if k not in seen:
+            seen.add(k)
+            uniq.append(it)
+    import random
+    random.Random(seed).shuffle(uniq)
+    if tier == 'quick':
+        uniq = uniq[:1600]
+    path = os.path.join(work, 'ladder_hist.ndjson')
+    with open(path, 'w') as f:
+        for it in uniq:
+            f.write(json.dumps(it) + '\n')
+    return {'ladder_hist': path}, {'module': 'MC_Ladder', 'cfg': 'MC_Ladder_gen', 'states': res.get('states', 0),
+                                   'distinct': res.get('distinct', 0), 'histories': len(uniq), 'wall_s': round(res['wall'], 2)}
+
+
+def gen_threads_and_ladder(tier, seed, work):
+    a, sa = gen_threads(tier, seed, work)
+    b, sb = gen_ladder(tier, seed, work)
+    a.update(b)
+    sa = dict(sa)
+    sa['ladder'] = sb
+    sa['states'] = sa.get('states', 0) + sb.get('states', 0)
+    sa['distinct'] = sa.get('distinct', 0) + sb.get('distinct', 0)
+    return a, sa
